@@ -176,6 +176,7 @@ def make_client(issuer=ISS, client_id=CLIENT_ID, sigalg=None, reg="static", allo
         if sigalg is not None:
             rr["id_token_signed_response_alg"] = sigalg
         ctx.registration_response = rr
+    ctx.clock_skew = skew
     load_issuer_keys(client.get_attribute("keyjar"), known_issuers)
     client.fake_op = op
     return client
@@ -613,7 +614,356 @@ def oracle_c08(case, expected_alg, sent_nonce):
                     ok = c.get(claim) in [left_hash_ref(val, b) for b in (256, 384, 512)]
                 if not ok:
                     bad.append(claim)
-    # (7) basic well-formedness of what is returned as verified
-    if not isinstance(c.get("sub"), str) or not c.get("sub"):
-        bad.append("sub")
     return bad
+
+
+# ================================================================================================
+# Driving real clients: a world of StandAloneClients (optionally behind an RPHandler), traces, snapshots
+# ================================================================================================
+from urllib.parse import urlsplit, parse_qs  # noqa: E402
+
+
+def cfg_of_client(client, usage_sigalg_explicit=None):
+    """Read the model's rp_cfg off a real client (what the code will consult)."""
+    ctx = client.get_context()
+    rr = ctx.registration_response or {}
+    va = ctx.claims.get_usage("verify_args") or {}
+    pi = ctx.provider_info.get("issuer") if hasattr(ctx.provider_info, "get") else None
+    return {
+        "issuer": ctx.issuer, "pi_issuer": pi, "client_id": ctx.get_client_id(),
+        "reg_sigalg": rr.get("id_token_signed_response_alg"),
+        "usage_sigalg": ctx.claims.get_usage("id_token_signed_response_alg"),
+        "allow_none": bool(va.get("allow_sign_alg_none", False)),
+        "skew": ctx.clock_skew, "allow_missing_kid": bool(ctx.allow.get("missing_kid")),
+        "jar": jar_of(client.get_attribute("keyjar")),
+    }
+
+
+def coq_cfg(c):
+    return "(mkCfg %s %s %s %s %s %s %s %s %s)" % (
+        coq_str(c["issuer"]), coq_ostr(c["pi_issuer"]), coq_str(c["client_id"]), coq_ostr(c["reg_sigalg"]),
+        coq_ostr(c["usage_sigalg"]), coq_bool(c["allow_none"]), coq_z(c["skew"]), coq_bool(c["allow_missing_kid"]),
+        coq_jar(c["jar"]))
+
+
+class World:
+    """Clients keyed by issuer. ops are executed on the real objects; every step is recorded for the model
+    (coq term) and for the oracle (python records with before/after snapshots)."""
+
+    def __init__(self, clients, clock, rph=None):
+        self.clients = clients            # ordered dict issuer -> StandAloneClient
+        self.clock = clock
+        self.rph = rph
+        self.jwts = {}                    # compact JWS -> placeholder
+        self.tokens = {}                  # placeholder -> token description
+        self.hashed = set()
+        self.steps = []                   # (coq_op, out, snapshot) for the model
+        self.log = []                     # python records for oracle / replay
+        self.cfgs = [(iss, cfg_of_client(c)) for iss, c in clients.items()]
+        self.flows = []                   # started flows: dict(issuer, state, nonce)
+
+    # -- snapshots
+    def _canon(self, v):
+        if isinstance(v, str):
+            return self.jwts.get(v, v)
+        if isinstance(v, dict):
+            return {k: self._canon(x) for k, x in v.items()}
+        if isinstance(v, (list, tuple)):
+            return [self._canon(x) for x in v]
+        return v
+
+    def snapshot(self):
+        out = []
+        for iss, c in self.clients.items():
+            cs = c.get_context().cstate
+            out.append((iss, self._canon(copy.deepcopy(cs._db)), dict(cs._map)))
+        return out
+
+    @staticmethod
+    def coq_snapshot(snap):
+        rows = []
+        for iss, db, mp in snap:
+            dbt = coq_list(["(%s, %s)" % (coq_str(k), coq_dict(r)) for k, r in db.items()], "(pystr * list (pystr * pyval))")
+            mpt = coq_list(["(%s, %s)" % (coq_str(k), coq_str(v)) for k, v in mp.items()], "(pystr * pystr)")
+            rows.append("(%s, (%s, %s))" % (coq_str(iss), dbt, mpt))
+        return coq_list(rows, "(pystr * (list (pystr * list (pystr * pyval)) * list (pystr * pystr)))")
+
+    def placeholder(self, tok):
+        jwt = mint_tok(tok)
+        ph = "JWT#%d" % (len(self.jwts) + 1)
+        self.jwts[jwt] = ph
+        self.tokens[ph] = tok
+        return jwt, ph
+
+    def coq_response(self, params, tok):
+        """params: the delivered parameters with the id_token already replaced by its placeholder"""
+        for k in ("code", "access_token"):
+            if isinstance(params.get(k), str):
+                self.hashed.add(params[k])
+        return "(mkResp %s %s)" % (coq_dict(params), coq_opt(tok, coq_token, "token"))
+
+    def _record(self, coq_op, kind, detail, out, before):
+        after = self.snapshot()
+        self.steps.append((coq_op, out, after))
+        self.log.append({"op": kind, "detail": detail, "out": out, "before": before, "after": after})
+        return out
+
+    @staticmethod
+    def modellable_out(out):
+        return out[0] != "ok" or modellable(out[1])
+
+    # -- operations
+    def begin(self, iss, response_type="code"):
+        before = self.snapshot()
+        c = self.clients[iss]
+        if self.rph is not None:
+            url = self.rph.begin(iss, req_args={"response_type": response_type})
+        else:
+            url = c.init_authorization(req_args={"response_type": response_type})
+        q = parse_qs(urlsplit(url).query)
+        st, nonce = q["state"][0], q["nonce"][0]
+        rec = dict(c.get_context().cstate._db[st])
+        rec.pop("iss", None)
+        self.flows.append({"issuer": iss, "state": st, "nonce": nonce})
+        op = "(OBegin %s %s %s %s)" % (coq_str(iss), coq_str(st), coq_str(nonce), coq_dict(rec))
+        self._record(op, "begin", {"issuer": iss, "state": st, "nonce": nonce}, ("ok", {}), before)
+        return st, nonce
+
+    def _deliver(self, params, tok):
+        """returns (real params with the compact JWS, model params with the placeholder)"""
+        real, model = dict(params), dict(params)
+        if tok is not None:
+            jwt, ph = self.placeholder(tok)
+            real["id_token"], model["id_token"] = jwt, ph
+        return real, model
+
+    def authz(self, iss, params, tok=None):
+        before = self.snapshot()
+        real, model = self._deliver(params, tok)
+        try:
+            if self.rph is not None:
+                r = self.rph.finalize_auth(None, iss, real)
+            else:
+                r = self.clients[iss].finalize_auth(real)
+            out = ("ok", self._canon(r.to_dict()))
+        except Exception as e:      # noqa: BLE001 - every refusal is an observation
+            out = ("err", exc_name(e))
+        op = "(OAuthz %s %s %s)" % (coq_str(iss), self.coq_response(model, tok), coq_z(self.clock.now))
+        return self._record(op, "authz", {"issuer": iss, "params": model, "tok": tok, "now": self.clock.now}, out, before)
+
+    def token(self, iss, st, params, tok=None, routed=False):
+        before = self.snapshot()
+        real, model = self._deliver(params, tok)
+        for i, c in self.clients.items():
+            if routed or i == iss:
+                c.fake_op.script(i + "/token", real)
+        try:
+            if routed:
+                r = self.rph.get_tokens(st)
+            else:
+                r = self.clients[iss].get_tokens(st)
+            out = ("ok", self._canon(r.to_dict()))
+        except Exception as e:      # noqa: BLE001
+            out = ("err", exc_name(e))
+        if routed:
+            op = "(ORoutedToken %s %s %s)" % (coq_str(st), self.coq_response(model, tok), coq_z(self.clock.now))
+        else:
+            op = "(OToken %s %s %s %s)" % (coq_str(iss), coq_str(st), self.coq_response(model, tok), coq_z(self.clock.now))
+        return self._record(op, "routed_token" if routed else "token",
+                            {"issuer": iss, "state": st, "params": model, "tok": tok, "now": self.clock.now}, out, before)
+
+    def userinfo(self, iss, st, claims):
+        before = self.snapshot()
+        c = self.clients[iss]
+        c.fake_op.script(iss + "/user", claims)
+        try:
+            r = c.get_user_info(st)
+            out = ("ok", self._canon(r.to_dict()))
+        except Exception as e:      # noqa: BLE001
+            out = ("err", exc_name(e))
+        op = "(OUserinfo %s %s %s)" % (coq_str(iss), coq_str(st), coq_dict(claims))
+        return self._record(op, "userinfo", {"issuer": iss, "state": st, "claims": claims}, out, before)
+
+    # -- the case term
+    def coq_trace(self):
+        cfgs = coq_list(["(%s, %s)" % (coq_str(i), coq_cfg(c)) for i, c in self.cfgs], "(pystr * rp_cfg)")
+        steps = coq_list(["(%s, (%s, %s))" % (op, coq_res_dict(out) if out[0] == "ok" else coq_exc(out[1]),
+                                              self.coq_snapshot(snap)) for op, out, snap in self.steps])
+        return "(%s, %s, %s)" % (cfgs, coq_hash_table(sorted(self.hashed)), steps)
+
+    def modellable(self):
+        return all(self.modellable_out(o) and all(modellable(db) for _, db, _ in snap) for _, o, snap in self.steps)
+
+
+TRACE_TYPE = "trace_case"
+TRACE_IMPORTS = ["Lib.Base", "Lib.PyStr", "Lib.RpTy", "Gen.RpTables", "Model.IdToken", "Model.RpState"]
+
+
+def make_world(clock, issuers=(ISS,), rph=False, **kw):
+    """issuers: the providers this RP talks to (one client each); kw: make_client settings (all clients)."""
+    from collections import OrderedDict
+    clients = OrderedDict()
+    handler = None
+    if rph:
+        from idpyoidc.client.rp_handler import RPHandler
+        op = FakeOP()
+        confs = {}
+        for iss in issuers:
+            cf = client_config(iss, CLIENT_ID, kw.get("sigalg") if kw.get("reg", "static") == "static" else None,
+                               False, 0, kw.get("allow_missing_kid", False))
+            confs[iss] = cf
+        kj = KeyJar()
+        load_issuer_keys(kj, tuple(ISSUER_KEYS))
+        handler = RPHandler(base_url="https://rp.example.com/cli/", client_configs=confs, keyjar=kj, httpc=op,
+                            httpc_params={})
+        for iss in issuers:
+            c = handler.client_setup(iss)
+            c.fake_op = op
+            _post_setup(c, kw)
+            clients[iss] = c
+    else:
+        for iss in issuers:
+            clients[iss] = make_client(issuer=iss, known_issuers=tuple(ISSUER_KEYS), **kw)
+    for c in clients.values():
+        c.get_context().clock_skew = kw.get("skew", 0)
+    return World(clients, clock, handler)
+
+
+def _post_setup(client, kw):
+    ctx = client.get_context()
+    if kw.get("allow_none"):
+        ctx.claims.set_usage("verify_args", {"allow_sign_alg_none": True})
+    if kw.get("reg") == "dynamic":
+        rr = {"client_id": CLIENT_ID, "client_secret": SECRET}
+        if kw.get("sigalg") is not None:
+            rr["id_token_signed_response_alg"] = kw["sigalg"]
+        ctx.registration_response = rr
+
+
+def fresh_world(world):
+    """A new, empty trace over the same real clients (their state stores are cleared)."""
+    for c in world.clients.values():
+        cs = c.get_context().cstate
+        cs._db.clear()
+        cs._map.clear()
+        c.fake_op.next.clear()
+    return World(world.clients, world.clock, world.rph)
+
+
+# ================================================================================================
+# C08 runners
+# ================================================================================================
+_MSG_JAR = None
+
+
+def msg_keyjar():
+    global _MSG_JAR
+    if _MSG_JAR is None:
+        kj = KeyJar()
+        kj.add_symmetric("", SECRET)
+        kj.add_symmetric(CLIENT_ID, SECRET)
+        load_issuer_keys(kj, (ISS, ISS2))
+        _MSG_JAR = (kj, jar_of(kj))
+    return _MSG_JAR
+
+
+MSG_VARIANTS = ("full", "no-nonce", "no-iss", "no-client_id", "allowed_sign_alg")
+
+
+def run_msg_case(case, variant, clock):
+    """Message API: oidc.AuthorizationResponse / AccessTokenResponse .verify(**kwargs)."""
+    from idpyoidc.message.oidc import AuthorizationResponse, AccessTokenResponse
+    kj, jar = msg_keyjar()
+    cfg, ctx, tok = case["cfg"], case["ctx"], case["tok"]
+    nonce = "n-0123456789abcdef"
+    resolve(case, nonce, "n-other-flow-nonce")
+    kw = {"keyjar": kj, "verify": True, "iss": ISS, "client_id": CLIENT_ID, "skew": cfg["skew"], "nonce": nonce}
+    if cfg["sigalg"] is not None:
+        kw["sigalg"] = cfg["sigalg"]
+    if cfg["allow_none"]:
+        kw["allow_sign_alg_none"] = True
+    if cfg["allow_missing_kid"]:
+        kw["allow_missing_kid"] = True
+    if variant == "no-nonce":
+        del kw["nonce"]
+    elif variant == "no-iss":
+        del kw["iss"]
+    elif variant == "no-client_id":
+        del kw["client_id"]
+    elif variant == "allowed_sign_alg":
+        kw["allowed_sign_alg"] = "RS256"
+    is_authz = case["path"] == "msg_authz"
+    params = {"state": "S-msg"} if is_authz else {"token_type": "Bearer"}
+    if ctx.get("code"):
+        params["code"] = ctx["code"]
+    if ctx.get("access_token"):
+        params["access_token"] = ctx["access_token"]
+        params["token_type"] = "Bearer"
+    if ctx.get("resp_iss"):
+        params["iss"] = ctx["resp_iss"]
+    if ctx.get("resp_client_id"):
+        params["client_id"] = ctx["resp_client_id"]
+    model_params = dict(params)
+    jwt = mint_tok(tok)
+    if not ctx.get("drop_id_token"):
+        params["id_token"] = jwt
+        model_params["id_token"] = "JWT#1"
+    if ctx.get("forged"):
+        params["__verified_id_token"] = ctx["forged"]
+        model_params["__verified_id_token"] = ctx["forged"]
+    clock.now = case["now"]
+    try:
+        msg = (AuthorizationResponse if is_authz else AccessTokenResponse)(**params)
+        msg.verify(**kw)
+        d = msg.to_dict()
+        if "id_token" in d:
+            d["id_token"] = "JWT#1"
+        out = ("ok", d)
+    except Exception as e:      # noqa: BLE001
+        out = ("err", exc_name(e))
+    hashed = [v for v in (params.get("code"), params.get("access_token")) if isinstance(v, str)]
+    has_tok = "id_token" in model_params
+    term = "(%s, %s, (mkResp %s %s), %s, %s, %s)" % (
+        coq_bool(is_authz), coq_kwargs(kw, jar), coq_dict(model_params),
+        coq_opt(tok if has_tok else None, coq_token, "token"), coq_z(case["now"]), coq_hash_table(hashed),
+        coq_res_dict(out) if out[0] == "ok" else coq_exc(out[1]))
+    return out, term, kw
+
+
+RESP_IMPORTS = ["Lib.Base", "Lib.PyStr", "Lib.RpTy", "Gen.RpTables", "Model.IdToken"]
+RESP_TYPE = "resp_case"
+
+
+def run_svc_case(world, case):
+    """Service path on a real client: Service.parse_response + update_service_context through
+    StandAloneClient.finalize_auth (authorization endpoint) / get_tokens (token endpoint).
+    Returns (world-with-trace, out, state, sent nonce)."""
+    w = fresh_world(world)
+    w.clock.now = case["now"]
+    ctx, tok = case["ctx"], case["tok"]
+    st_other, nonce_other = w.begin(ISS, "code")                 # another pending flow of the same RP
+    st, nonce = w.begin(ISS, "code id_token" if case["path"] == "svc_authz" else "code")
+    resolve(case, nonce, nonce_other)
+    extra = {}
+    if ctx.get("forged"):
+        extra["__verified_id_token"] = ctx["forged"]
+    if ctx.get("resp_iss"):
+        extra["iss"] = ctx["resp_iss"]
+    if ctx.get("resp_client_id"):
+        extra["client_id"] = ctx["resp_client_id"]
+    the_tok = None if ctx.get("drop_id_token") else tok
+    if case["path"] == "svc_authz":
+        params = {"state": st}
+        if ctx.get("code"):
+            params["code"] = ctx["code"]
+        if ctx.get("access_token"):
+            params["access_token"] = ctx["access_token"]
+            params["token_type"] = "Bearer"
+        params.update(extra)
+        out = w.authz(ISS, params, the_tok)
+    else:
+        w.authz(ISS, {"state": st, "code": "Co-for-token-endpoint"})
+        params = {"access_token": ctx["access_token"], "token_type": "Bearer", "expires_in": 600}
+        params.update({k: v for k, v in extra.items() if k == "__verified_id_token"})
+        out = w.token(ISS, st, params, the_tok)
+    return w, out, st, nonce
